@@ -8,7 +8,8 @@ TEXT = {
            "vbint encoder/decoders are run against the Go ones (hooks) on boundaries, stratified values and all short byte strings "
            "(thorough: all 2^28 values, all strings <= 3 bytes) on every run. C15_encoder_is_the_source: the encoder the theorems speak about is the loop of vbint.fill "
            "as it stands in the source - translated statement by statement on every run, the run of the statement list proved equal to the model's encoder for every value, buffer and position; "
-           "C15_decoder_is_the_source: likewise the in-memory decoder is the run of the regenerated statement list of vbint.UnmarshalBinary, for every byte string.",
+           "C15_decoder_is_the_source, C15_stream_decoder_is_the_source: likewise the in-memory decoder is the run of the regenerated statement list of vbint.UnmarshalBinary for every byte string, "
+           "and the streaming decoder the run of that of vbint.ReadFrom for every reader script (value or error, reader afterwards, sizes requested, bytes taken).",
   "note": NOTE,
   "technique": "Coq proof (div/mod-128 characterisation, lia) + Go-vs-extracted-model correspondence + exhaustive oracle",
  },
